@@ -1371,7 +1371,7 @@ def f2Trace : List Op :=
    .upsert "A" "k" "v",
    .join "A" "B" true 0, .join "A" "C" true 0, .join "B" "C" true 0,
    -- A crashes here: no later op is a step of A, and no packet is addressed to it
-   .liveness "B" ["A"] 0, .expire "B" (90 * 1000000000),
+   .liveness "B" ["A"] 0, .expire "B" (nodeExpiry + 1),
    .sendDigest "C" "aB" true [0, 1, 2] 1000,
    .deliver 0 1000 [0, 1, 2] 1000 0,
    .deliver 2 1000 [0, 1, 2] 1000 0,
